@@ -139,6 +139,42 @@ func (w *world) probeAll() {
 	}
 }
 
+// lateConnection opens, uses and ends a connection while Drain is already waiting and shutdown
+// has not been requested.
+func (w *world) lateConnection(p string) bool {
+	cl, err := dial(w.addr[p], w.wd)
+	if err != nil {
+		w.c.Inconclusive(fmt.Sprintf("cannot connect to the running %s listener: %v", p, err))
+		return false
+	}
+	defer cl.close()
+	want, bye := "220", "221"
+	if p == "pop3" {
+		want, bye = "+OK", "+OK"
+	}
+	l, err := cl.readLine()
+	if err != nil {
+		if isTimeout(err) {
+			w.hang("late-connection:"+p, fmt.Sprintf("a connection to the %s listener made while Drain was waiting (shutdown not yet requested) got no greeting", strings.ToUpper(p)))
+		} else {
+			w.viol("C19:late-connection-not-served:"+p, fmt.Sprintf("a connection made while %s Drain was waiting (shutdown not yet requested) ended without a greeting: %v", strings.ToUpper(p), err))
+		}
+		return false
+	}
+	if !strings.HasPrefix(l, want) {
+		w.viol("C19:late-connection-not-served:"+p, fmt.Sprintf("a connection made while %s Drain was waiting (shutdown not yet requested) was answered %q", strings.ToUpper(p), l))
+		return false
+	}
+	if err := cl.write("QUIT\r\n"); err == nil {
+		if l, err := cl.readLine(); err != nil || !strings.HasPrefix(l, bye) {
+			w.viol("C19:late-connection-not-served:"+p, fmt.Sprintf("QUIT on a connection made while %s Drain was waiting: %q %v", strings.ToUpper(p), l, err))
+			return false
+		}
+	}
+	w.c.Count("connections_served_while_drain_waits", 1)
+	return true
+}
+
 // play runs the part of a scenario that starts with the shutdown request.
 func (w *world) play(ops *svcOps, ord int, stopFirst, heldLast bool) {
 	r := w.r
@@ -152,6 +188,14 @@ func (w *world) play(ops *svcOps, ord int, stopFirst, heldLast bool) {
 	}
 	if ord == 4 {
 		drains() // Drain is already waiting when shutdown is requested
+		// ... and until it is requested the servers serve: a connection arriving while Drain waits
+		// is greeted and handled like any other (added after seeded change C19-9: Drain holding a
+		// lock the accept loop needs).
+		for _, p := range []string{"smtp", "pop3"} {
+			if !w.lateConnection(p) {
+				return
+			}
+		}
 	}
 	ops.cancel()
 	w.cancelled = true
